@@ -22,7 +22,7 @@ import (
 	"github.com/mdzio/go-mqtt/service"
 )
 
-const brokerWait = 5 * time.Second
+const brokerWait = 15 * time.Second
 
 type verifAuth struct{}
 
@@ -313,8 +313,13 @@ func (b *brokerCore) barrier(c *rawClient) bool {
 	if c.waitUntil(func() bool { return c.pongs >= want || c.eof }, 1500*time.Millisecond) {
 		return true
 	}
-	// a packet that sits in the incoming ring unprocessed until more traffic arrives is a lost
-	// wake-up (C15); it is made visible in this connection's output and the PINGREQ is repeated
+	// no answer yet.  A slow or overloaded machine answers late but WITHOUT further traffic: wait on,
+	// silently.  A packet that sits in the incoming ring unprocessed until more traffic arrives is a lost
+	// wake-up (C15): only that is made visible in this connection's output, and the PINGREQ is repeated.
+	if c.waitUntil(func() bool { return c.pongs >= want || c.eof }, stallGrace) {
+		atomic.AddInt64(&barrierLate, 1)
+		return true
+	}
 	atomic.AddInt64(&barrierRepeats, 1)
 	c.mu.Lock()
 	c.items = append(c.items, "STALLED")
@@ -326,7 +331,10 @@ func (b *brokerCore) barrier(c *rawClient) bool {
 	return c.waitUntil(func() bool { return c.pongs >= want || c.eof }, brokerWait)
 }
 
-var barrierRepeats int64
+var barrierRepeats, barrierLate int64
+
+// how long a barrier PINGREQ may stay unanswered, with nothing else sent, before it counts as stalled
+const stallGrace = 10 * time.Second
 
 // dropBarrierPongs keeps only the PINGRESPs that answer PINGREQ *events*.
 func dropBarrierPongs(items []string, c *rawClient) []string {
